@@ -2,6 +2,7 @@ package main
 
 import (
 	"fmt"
+	"golang.org/x/tools/go/ssa"
 	"os"
 	"sort"
 	"strings"
@@ -16,6 +17,8 @@ func main() {
 	switch os.Args[1] {
 	case "dump":
 		cmdDump(os.Args[2:])
+	case "terms":
+		cmdTerms(os.Args[2:])
 	case "list":
 		var ids []string
 		for id := range checks {
@@ -122,6 +125,19 @@ func cmdDump(args []string) {
 					}
 				}
 			}
+			if pat := os.Getenv("DBGSITE_STATE"); pat != "" {
+				for _, s := range a.sites {
+					if s.In != nil && strings.Contains(s.Callee, pat) {
+						fmt.Printf("   STATE at site %s %s\n", s.Callee, s.Where(w))
+						for i, ar := range s.Args {
+							fmt.Printf("        canon arg%d = %s\n", i, a.Canon(s.In, ar).pretty())
+						}
+						for _, l := range s.In.dump(a.lt) {
+							fmt.Println("          ", l)
+						}
+					}
+				}
+			}
 			if os.Getenv("DBGSTATE") != "" {
 				for _, s := range a.Effects() {
 					fmt.Printf("   STATE at E(%d) %s\n", s.EIdx, s.Where(w))
@@ -194,3 +210,43 @@ func cmdDump(args []string) {
 		}
 	}
 }
+
+// cmdTerms prints the term of every value-producing instruction of a function (debug aid).
+func cmdTerms(args []string) {
+	w, err := loadWorld(repoPath())
+	if err != nil {
+		fmt.Fprintln(os.Stderr, err)
+		os.Exit(2)
+	}
+	for _, arg := range args {
+		i := strings.LastIndex(arg, ".")
+		p := w.ByPath[modPrefix+arg[:i]]
+		if p == nil {
+			fmt.Println("no package", arg[:i])
+			continue
+		}
+		fn := w.Prog.Package(p.Types).Func(arg[i+1:])
+		if fn == nil {
+			fmt.Println("no function", arg)
+			continue
+		}
+		tb := newTermBuilder(w, fn)
+		for _, b := range fn.Blocks {
+			fmt.Printf("block %d (%s)\n", b.Index, b.Comment)
+			for _, ins := range b.Instrs {
+				if v, ok := ins.(interface {
+					Name() string
+					String() string
+				}); ok {
+					if val, isV := ins.(ssaValue); isV {
+						fmt.Printf("  %-6s = %-60.60s :: %s\n", v.Name(), v.String(), tb.Term(tb.root, val).pretty())
+						continue
+					}
+				}
+				fmt.Printf("           %s\n", ins.String())
+			}
+		}
+	}
+}
+
+type ssaValue = ssa.Value
